@@ -122,16 +122,26 @@ def judge(ctx, status: str) -> list[dict]:
         # stop check just before the instant may still announce one (benign check-then-act): one per thread allowed.
         from .. import sched as S
 
-        created_late: dict[str, int] = {}
+        created_late: dict[str, list] = {}
+        fin_by_id = {e.id: e for _, e in finished}
         for _, e in delivered:
             if isinstance(e, events.ScenarioStarted):
                 born = S.UUID_LOG.get(e.id)
                 if born is not None and born[0] > stop_seq:
-                    created_late[born[1]] = created_late.get(born[1], 0) + 1
-        worst_started = max(created_late.values(), default=0)
+                    created_late.setdefault(born[1], []).append(e)
+        worst_started = max((len(x) for x in created_late.values()), default=0)
         if worst_started > 1:
-            t = max(created_late, key=created_late.get)
-            v("R4", f"{worst_started} scenarios were started by {t} after the stop request", what="scenario_started_after_stop")
+            t = max(created_late, key=lambda k: len(created_late[k]))
+            late = created_late[t]
+            # did the late scenarios do anything (cases recorded) or were they empty shells?
+            with_steps = sum(1 for e in late if e.id in fin_by_id and len(fin_by_id[e.id].recorder.cases) > 0)
+            v(
+                "R4",
+                f"{worst_started} scenarios were started by {t} after the stop request ({with_steps} of them executed steps)",
+                what="scenario_started_after_stop",
+                thread=t.split("#")[0],
+                late_with_steps_le1=with_steps <= 1,
+            )
         per_thread: dict[str, int] = {}
         for r in wire:
             if r.seq > stop_seq and r.phase in ("examples", "coverage", "fuzzing", "stateful"):
